@@ -182,16 +182,18 @@ def getBytes (b : Buf) (len : UInt32) : Res :=
 
 def getChars (b : Buf) (len : UInt32) : Res := getBytes b len
 
+/-- the window `memchr` searches: `avail_for_read` bytes from the read cursor -/
+def strWin (b : Buf) : List UInt8 := slice b.data b.readPos.toNat (availRead b).toNat
+
 /-- `mbuf_get_string`: `memchr(data + read_pos, 0, avail)`; on success the string (without
 the NUL) is delivered and the cursor moves behind the NUL -/
 def getString (b : Buf) : Res :=
-  let win := slice b.data b.readPos.toNat (availRead b).toNat
-  match win.findIdx? (· == 0) with
+  match (strWin b).findIdx? (· == 0) with
   | none => { ok := false, buf := b, acc := [⟨.rd, b.readPos.toNat, (availRead b).toNat⟩] }
   | some k =>
     { ok := true, buf := { b with readPos := b.readPos + UInt32.ofNat k + 1 },
       acc := [⟨.rd, b.readPos.toNat, k + 1⟩],
-      bytes := win.take k,
+      bytes := (strWin b).take k,
       val := b.readPos.toNat }
 
 /-! ## `mbuf_make_room` (mbuf.c) -/
@@ -207,13 +209,15 @@ def grow : (fuel : Nat) → (na need : UInt32) → Option UInt32
       if na > 0xFFFFFFFF / 2 then none else grow fuel (na * 2) need
     else some na
 
+/-- `new_alloc = buf->alloc_len; if (new_alloc == 0) new_alloc = 128;` -/
+def startAlloc (b : Buf) : UInt32 := if b.allocLen = 0 then 128 else b.allocLen
+
 def makeRoom (b : Buf) (len : UInt32) (ora : UInt32 → Bool) : Bool × Buf :=
   if b.reader = true ∨ b.fixed = true then (false, b)
   else if len ≤ availWrite b then (true, b)
   else if len > 0xFFFFFFFF - b.writePos then (false, b)
   else
-    let start : UInt32 := if b.allocLen = 0 then 128 else b.allocLen
-    match grow 33 start (b.writePos + len) with
+    match grow 33 (startAlloc b) (b.writePos + len) with
     | none => (false, b)
     | some na =>
       if ora na then
@@ -518,9 +522,11 @@ naturals, no capacity, no wrap-around -/
 structure Vec where
   bytes : List UInt8
   rpos : Nat
+  /-- read-only view (fixed reader / slice) -/
+  ro : Bool
 deriving DecidableEq, Repr
 
-def abs (b : Buf) : Vec := { bytes := contents b, rpos := b.readPos.toNat }
+def abs (b : Buf) : Vec := { bytes := contents b, rpos := b.readPos.toNat, ro := b.reader }
 
 /-- big-endian value of a byte string -/
 def beNat (l : List UInt8) : Nat := l.foldl (fun acc x => acc * 256 + x.toNat) 0
@@ -534,8 +540,13 @@ def cut (v : Vec) (ofs len : Nat) : Vec :=
   if ofs < v.bytes.length then
     { bytes := v.bytes.take ofs ++ v.bytes.drop (ofs + len),
       rpos := if ofs + len ≤ v.rpos then v.rpos - len
-              else if ofs < v.rpos then ofs else v.rpos }
+              else if ofs < v.rpos then ofs else v.rpos,
+      ro := v.ro }
   else v
+/-- the empty read-write vector -/
+def empty : Vec := { bytes := [], rpos := 0, ro := false }
+/-- a read-only view of `xs` -/
+def view (xs : List UInt8) : Vec := { bytes := xs, rpos := 0, ro := true }
 end Vec
 
 end Usual.C12
